@@ -12,7 +12,7 @@ def ipcbed():
 # client death: case k -> scenario k % 4 (transport x queues empty/non-empty), syscall stop ((k / 4) * stride) % S + 1
 STAGE_LIST = [
     simple.Stage("client-death", ipcbed, ["--mode", "c03-client", "--stride", "7"], quick=120, thorough=800, timeout=900, chunk=8),
-    simple.Stage("handshake-prefix", ipcbed, ["--mode", "c03-prefix"], quick=150, thorough=150, timeout=900, chunk=10),
+    simple.Stage("handshake-prefix", ipcbed, ["--mode", "c03-prefix"], quick=200, thorough=200, timeout=900, chunk=10),
     simple.Stage("server-death", ipcbed, ["--mode", "c03-server", "--stride", "7"], quick=176, thorough=1240, timeout=1800, chunk=6),
 ]
 THOROUGH_ARGS = {"client-death": ["--mode", "c03-client", "--stride", "1"], "server-death": ["--mode", "c03-server", "--stride", "1"]}
@@ -22,7 +22,7 @@ RULE = ("crash-point enumeration with a ptrace tracer. client death: 4 scenarios
         "killed at its n-th syscall stop (entry and exit stops are distinct points) for n = every 7th (quick) / every "
         "(thorough) stop of the ~190 per scenario; afterwards the server's callback automaton, qb_ipcs_stats, "
         "/proc/<pid>/fd, /dev/shm and a control client are audited. handshake-prefix: every prefix 0..24 of a valid "
-        "handshake x {exit, stall, byte-by-byte} x both transports (exhaustive). server death: the server runs under "
+        "handshake x {exit, stall, byte-by-byte, exit while the server sits in a slow accept callback} x both transports (exhaustive). server death: the server runs under "
         "the tracer and is killed at the n-th stop after the first connection was created; the surviving client logs "
         "latency and result of recv(300), sendv_recv(500), sendv_recv(-1), event_recv(-1), later send/recv and "
         "disconnect; non-empty files of the dead server under /dev/shm are listed after qb_ipcc_disconnect. distinct by "
